@@ -70,15 +70,16 @@ class ViewJobs(Jobs):
     def step_check(self, w, ev, obs, cfg):
         if ev[0] == 'isolate':
             w.budget['F'] -= 1
-        # a process changed state while some live instance had not (yet) fully admitted another one:
-        # the known handshake windows (see known_findings.json) - the signature says so
+        # a process changed state while some live instance had not (yet) admitted another one (or itself): the known
+        # handshake windows (see known_findings.json) - the signature says so.  A peer that is CHECKED is admitted
+        # (publications are sent to it and accepted from it): it is not part of those windows.
         changed = ev[0] in ('proc', 'ustart', 'ustop') or any(t['name'] in ('start_args', 'startProcess', 'stopProcess')
                                                                for t in obs['transport'])
         if changed and not w.budget.get('overlap'):
             live = w.live()
             for a in live:
                 seen = instance_states(w.sups[a])
-                if any(seen.get(w.idents[b]) != 'RUNNING' for b in live):
+                if any(seen.get(w.idents[b]) not in ('CHECKED', 'RUNNING') for b in live):
                     w.budget['overlap'] = 1
                     break
         out = super().step_check(w, ev, obs, cfg)
